@@ -651,7 +651,7 @@ func c19RandomLog(c *Ctx, u c19Uni, maxLen int, nrep int, withFiltered bool, wit
 
 func init() {
 	register("C19", func(c *Ctx) {
-		c.Rule = "three real DistributedEnforcer replicas (persist always / never / seeded coin) over recording set-semantics adapters apply the same log of *Self calls. (0) fixed witnesses (F02 links and memoised g() results after ClearPolicySelf, a fully replayed log, a refused batch update); (1) exhaustive: every log of length <= 3 (thorough: also length 4 on the RBAC model for logs starting with an AddPoliciesSelf) over an alphabet of 25 (RBAC: p, p2, g, g2) / 23 (domain model) calls with repeated and overlapping batches on a 4-rule universe per type, observed after its last call; (2) seeded random logs of <= 12 calls (random batches with repetition, replayed entries, empty batches, unknown type), observed after every call; (3) single persisting replica with injected adapter failures; (4) single persisting replica with UpdateFilteredPoliciesSelf. The direct predicates 'affected exact' and 'a repeated call reports nothing' stay inside the guards (F08: update targets not listed, no identity update); OUTSIDE the guard the model follows the code, so such calls are part of the correspondence stream (and of the guard-independent predicates: replicas agree, persist only when asked, failed persist leaves memory alone): (1b) from every in-guard state of the exhaustive part up to length 1 (length 2 behind an AddPoliciesSelf; thorough: 2) every identity update, update onto a listed rule, overlapping / swapping / identity batch update of g, p (and g2), followed by AddPoliciesSelf and RemovePoliciesSelf of the type's whole rule universe (they show what the index still knows), and a third of the random logs of (2) keep half of their out-of-guard draws (batches of <= 2 pairs) and go on behind them. Distinct = (model, log); non-trivial = the log contains a call that changes memory or reports a non-empty result."
+		c.Rule = "three real DistributedEnforcer replicas (persist always / never / seeded coin) over recording set-semantics adapters apply the same log of *Self calls. (0) fixed witnesses (F02 links and memoised g() results after ClearPolicySelf, a fully replayed log, a refused batch update); (1) exhaustive: every log of length <= 3 (thorough: also length 4 on the RBAC model for logs starting with an AddPoliciesSelf) over an alphabet of 25 (RBAC: p, p2, g, g2) / 23 (domain model) calls with repeated and overlapping batches on a 4-rule universe per type, observed after its last call; (2) seeded random logs of <= 12 calls (random batches with repetition, replayed entries, empty batches, unknown type), observed after every call; (3) single persisting replica with injected adapter failures; (4) single persisting replica with UpdateFilteredPoliciesSelf. The direct predicates 'affected exact' and 'a repeated call reports nothing' stay inside the guards (F08: update targets not listed, no identity update); OUTSIDE the guard the model follows the code, so such calls are part of the correspondence stream (and of the guard-independent predicates: replicas agree, persist only when asked, failed persist leaves memory alone): (1b) from every in-guard state of the exhaustive part up to length 1 (half of the length-2 logs behind an AddPoliciesSelf; thorough: all of length 2) every identity update, update onto a listed rule, overlapping / swapping / identity batch update of g, p (and g2), followed by AddPoliciesSelf and RemovePoliciesSelf of the type's whole rule universe (they show what the index still knows), and a third of the random logs of (2) keep half of their out-of-guard draws (batches of <= 2 pairs) and go on behind them. Distinct = (model, log); non-trivial = the log contains a call that changes memory or reports a non-empty result."
 		unis := []c19Uni{c19RBAC(), c19Domain()}
 		// (0) fixed witnesses, observed after every call on the three replicas
 		for ui, u := range unis {
@@ -714,7 +714,7 @@ func init() {
 			rec(nil, depth)
 		}
 		// (1b) calls outside the F08 guard, correspondence only: from every state reached by an
-		// in-guard log of the exhaustive alphabet (quick: length <= 1, and length 2 when the first
+		// in-guard log of the exhaustive alphabet (quick: length <= 1, and every second length-2 log whose first
 		// call is an AddPoliciesSelf; thorough: length <= 2), every identity update, update onto a
 		// listed rule and overlapping / identity batch update of c19OogOps, followed by
 		// AddPoliciesSelf and RemovePoliciesSelf of the whole rule universe of that type (they show
@@ -727,7 +727,7 @@ func init() {
 			for a := range al {
 				paths = append(paths, []int{a})
 				for b := range al {
-					if c.Thorough() || al[a].Kind == "add" {
+					if c.Thorough() || (al[a].Kind == "add" && (a+b)%2 == 0) {
 						paths = append(paths, []int{a, b})
 					}
 				}
